@@ -657,24 +657,28 @@ int main(int argc, char* argv[])
 			} else if (strcmp(optarg, "full") == 0) {
 				plan = SCRUB_FULL;
 			} else {
-				plan = strtoul(optarg, &e, 10);
-				if (!e || *e || plan > 100) {
+				/* check the range before converting to int, because negative */
+				/* values are used internally to identify the other plans */
+				unsigned long percentage = strtoul(optarg, &e, 10);
+				if (!e || *e || percentage > 100) {
 					/* LCOV_EXCL_START */
 					log_fatal("Invalid plan/percentage '%s'\n", optarg);
 					exit(EXIT_FAILURE);
 					/* LCOV_EXCL_STOP */
 				}
+				plan = percentage;
 			}
 			break;
-		case 'o' :
-			olderthan = strtoul(optarg, &e, 10);
-			if (!e || *e || olderthan > 1000) {
+		case 'o' : {
+			unsigned long days = strtoul(optarg, &e, 10);
+			if (!e || *e || days > 1000) {
 				/* LCOV_EXCL_START */
 				log_fatal("Invalid number of days '%s'\n", optarg);
 				exit(EXIT_FAILURE);
 				/* LCOV_EXCL_STOP */
 			}
-			break;
+			olderthan = days;
+		} break;
 		case 'w' : /* --bw-limit */
 			if (optarg == 0) {
 				/* LCOV_EXCL_START */
